@@ -131,7 +131,17 @@ func (c patComp) build(rng *rand.Rand) string {
 	}
 	switch c.Host.Defect {
 	case "unicode":
-		host = "résumé." + host
+		// 2-byte, 3-byte (incl. characters whose UTF-8 bytes are ASCII label bytes + 0x80) and 4-byte characters; runes whose
+		// case mapping is ASCII; at the start, inside and at the end of the host
+		u := []string{"résumé", "\u5c31", "\u4e2d", "\uac30", "\U0001F600", "\u212a", "\u0130", "exa\u5c39mple", "\u00df"}[rng.Intn(9)]
+		switch rng.Intn(3) {
+		case 0:
+			host = u + "." + host
+		case 1:
+			host = host + "." + u
+		default:
+			host = "a" + u + "." + host
+		}
 	case "upper":
 		host = strings.ToUpper(host[:1]) + host[1:]
 	case "space":
@@ -143,7 +153,7 @@ func (c patComp) build(rng *rand.Rand) string {
 	case "badpuny":
 		host = "www.xn--.com"
 	case "v4noncanon":
-		host = "127.000.0.1"
+		host = []string{"127.000.0.1", "0x7f000001", "127.0.0.0x1", "127.1", "2130706433", "0177.0.0.1", "10.0.0.0xa"}[rng.Intn(7)]
 	case "v4overflow":
 		host = "256.0.0.1"
 	case "v4extra":
